@@ -415,7 +415,34 @@ def run(repo: Repo) -> Result:
     s = text(av.node)
     if "isinstance(expression, Path)" not in s or "variables.add(var)" not in s or "for expr in expression.children():" not in s:
         res.add("C19-VISIT", av.qual, "shape", "_analyze_variables must record every Path and recurse into expression.children()", av.file, av.line)
-    if "if root not in scope:" not in s or "globals.add(var)" not in s:
+    # a path whose *root segment* is not in scope is reported as a global: `if <root> not in scope:
+    # globals.add(var)`, where <root> is str(var.segments[0]) — written in place, bound to a local,
+    # or read through a property of Variable that returns it
+    from ..astutil import single_assignments as _sa
+
+    la = _sa(av.node)
+    vcls = repo.cls("liquid.static_analysis.Variable")
+
+    def is_root_expr(e, depth=0) -> bool:
+        if depth > 3:
+            return False
+        if isinstance(e, ast.Name) and e.id in la:
+            return is_root_expr(la[e.id], depth + 1)
+        if isinstance(e, ast.Call) and is_name_(e.func, "str") and len(e.args) == 1:
+            return text(e.args[0]) in ("var.segments[0]", "self.segments[0]")
+        if isinstance(e, ast.Attribute) and is_name_(e.value, "var"):
+            prop = vcls.methods.get(e.attr)
+            if prop is not None and "property" in prop.decorators():
+                rets = [r.value for r in walk_no_nested(prop.node) if isinstance(r, ast.Return) and r.value is not None]
+                return len(rets) == 1 and is_root_expr(rets[0], depth + 1)
+        return False
+
+    g_ok = False
+    for n in ast.walk(av.node):
+        if isinstance(n, ast.If) and isinstance(n.test, ast.Compare) and len(n.test.ops) == 1 and isinstance(n.test.ops[0], ast.NotIn) and is_name_(n.test.comparators[0], "scope") and is_root_expr(n.test.left):
+            if any(isinstance(c, ast.Call) and callee_name(c) == "add" and is_name_(c.func.value if isinstance(c.func, ast.Attribute) else None, "globals") and c.args and is_name_(c.args[0], "var") for st_ in n.body for c in ast.walk(st_)) and not n.orelse:
+                g_ok = True
+    if not g_ok:
         res.add("C19-VISIT", av.qual, "globals", "_analyze_variables must report a path whose root is not in scope as a global", av.file, av.line)
     res.stats.update(node_classes=n_nodes, expression_classes=n_e)
     # ---- C19-KEY: an isolated partial is re-analysed whenever its scope differs ---------------
